@@ -1,6 +1,6 @@
 /-
 Model of `app/ldiff` (diff.go, hashrange.go) — the range-hash index and the diff recursion,
-with the four `fix:` patches of `repo_patches/ldiff` applied (nilhash, update, merge, bottomrange).
+with the four `fix:` commits applied (nilhash, update, merge, bottomrange).
 
 What is mirrored, function by function:
 
@@ -9,20 +9,24 @@ What is mirrored, function by function:
   skiplist ordered by (xxhash(id),id)  `List Elem` kept sorted by `Elem.lt` (`slInsert`, `slRemove`)
   genTupleRanges                       `genTupleRanges` / `childRange` (uint64 arithmetic, explicit `% M`)
   getBottomRange (bucket clamp)        `bucketOf`
+                                       both packaged as `goSplit : Splitter`; the tree functions take
+                                       an arbitrary `Splitter` (theorems hold for every one with `SplitOk`)
   hashRange{elements,isDivided,hash}   `Tree.leaf cnt hash` / `Tree.div cnt hash kids`
   map[rangeTuple]*hashRange            the position in the tree (`findNode` descends from the top)
-  makeRange / makeBottomRanges         `build`
+  makeRange / makeBottomRanges         `build` / `buildKids` (explicit depth budget)
+  the top range (always divided)       `buildTop`, `topOp`
   addElement + recalculateHashes       `addEl`   (dirty marks = recomputation along the walked path)
   updateElement (fix-update)           `updEl`
-  removeElement (fix-merge)            `rmEl`    (the upward merge loop = the `active` flag)
+  removeElement (fix-merge)            `rmEl`    (the upward merge loop = the Boolean `active` result)
   calcElementsHash / calcDividedHash   `elemsHash` / `kidsHash` over an abstract digest algebra
-  diff.getRange (fix-nilhash)          `getRange`
+  diff.getRange (fix-nilhash)          `Index.getRange`
   compareResults / compareElements*    `compareResults` / `cmpEqual` / `cmpGreater`
-  Diff / CompareDiff round loop        `rounds`
+  Diff / CompareDiff round loop        `rounds` (80 rounds; `none` = still running)
 
 xxhash64 values are DATA supplied with every element (field `hash`); blake3 is an abstract
 `DigAlg D` (`hE` over the serialised elements, `hN` over the concatenated child digests).
-Core Lean only (this file is linked into `modeld`).
+`Tree.stuck` marks the places where Go does not return (unbounded recursion, division by zero,
+nil child). Core Lean only (this file is linked into `modeld`).
 -/
 namespace AnySync.Ldiff
 
